@@ -16,13 +16,23 @@ from props import c12
 
 MODULES = ["Percival.Properties.C14"]
 WRAP = "-Wl,--wrap=malloc,--wrap=calloc,--wrap=realloc,--wrap=free,--wrap=atexit"
+# h_af_upper.c: strdup() made by library code (https_request, aws_sign, sock_addr_prettyprint) goes through the wrapped malloc;
+# https.c pulls in netbuf_ssl.c and network_ssl*.c, hence OpenSSL (nothing of it runs: the start ops never reach a handshake)
+UP_WRAP = WRAP + ",--wrap=strdup,--wrap=poll,--wrap=time"
+UP_LIBS = ["-lssl", "-lcrypto"]
 NOBUILTIN = c12.NOBUILTIN
 EV_SRCS = ["datastruct/timerqueue.c", "events/events_network_selectstats.c", "util/warnp.c"]
 # events/*.c, elasticarray.c, ptrheap.c, network_read.c and network_write.c are #included by h_af_upper.c (white-box)
 UP_SRCS = ["events/events_network_selectstats.c", "datastruct/timerqueue.c", "network/network_accept.c",
            "network/network_connect.c", "netbuf/netbuf_read.c", "netbuf/netbuf_write.c", "http/http.c", "util/sock.c",
            "util/sock_util.c", "util/asprintf.c", "util/humansize.c", "util/monoclock.c", "util/warnp.c",
-           "aws/aws_sign.c", "alg/sha256.c", "util/hexify.c", "util/insecure_memzero.c"]
+           "aws/aws_sign.c", "alg/sha256.c", "util/hexify.c", "util/insecure_memzero.c",
+           "http/https.c", "netbuf/netbuf_ssl.c", "network_ssl/network_ssl.c", "network_ssl/network_ssl_compat.c"]
+# black-box fallback of h_allocfail.c: the files it #includes white-box, compiled separately
+EV_BB_SRCS = ["datastruct/elasticarray.c", "datastruct/ptrheap.c", "events/events.c", "events/events_immediate.c",
+              "events/events_timer.c", "events/events_network.c"]
+# black-box fallback of h_af_upper.c: the files it #includes white-box, compiled separately
+UP_BB_SRCS = EV_BB_SRCS + ["network/network_read.c", "network/network_write.c"]
 KCAP = 70          # above this many allocations the k's are sampled (all k <= 24, then every third)
 
 
@@ -37,6 +47,10 @@ def bases_containers(rng, tier):
         cand = [strip_sched(c) for c in gen(rng.fork("b" + name), "quick", 1)]
         cand = [c for c in cand if 6 <= len(c) <= (45 if tier == "quick" else 90)]
         out += cand[:nb]
+    # every pool size across its cache size (size+2 objects, all freed, allocated again, exit)
+    for k in c12.POOL_SIZES:
+        for order in ("lifo", "fifo"):
+            out.append(c12.mp_cross(k, rounds=1, order=order))
     # one sequence that exercises everything the property names as "cannot fail" with live data
     out.append(["ea_init 4 8 1", "ea_append 40 8 2", "ea_shrink 38 8", "ea_shrink 2 8", "ea_dump", "ea_free",
                 "eq_init 8", "eq_add 1", "eq_add 2", "eq_add 3", "eq_add 4", "eq_add 5", "eq_del", "eq_del", "eq_del",
@@ -262,9 +276,14 @@ def bases_upstart(rng, tier):
                     live["hq"][h] = None
                     pat = r.choice(["g", "g", "-", "bg", "b"])
                     pl = r.choice([0, 1, 17, 200])
-                    ops.append("hq_start %d %s %d" % (h, pat, pl))
+                    # half of them through https_request (host name duplicated first; the request owns the copy only once
+                    # http_request2 has returned it)
+                    op = "hq_start %d %s %d" % (h, pat, pl)
+                    if r.chance(1, 2):
+                        op = "hqs_start %d %s %d %d" % (h, pat, pl, r.choice([0, 1, 9, 9, 64, 255]))
+                    ops.append(op)
                     if r.chance(1, 3):
-                        ops.append("hq_start %d %s %d" % (h, pat, pl))
+                        ops.append(op)
         ops.append("end")
         out.append(ops)
     # every start made twice (the second is the retry after a failure), every cancel/free, in one sequence
@@ -275,6 +294,12 @@ def bases_upstart(rng, tier):
                 "nbw_reserve 0 100", "nbw_reserve 0 100", "nbw_consume 0 100", "hq_start 0 g 3", "hq_start 0 g 3",
                 "hq_cancel 0", "nbw_free 0", "nbr_cancel 0", "nbr_free 0", "nc_cancel 1", "nc_cancel 0",
                 "na_cancel 0", "nw_cancel 0", "nr_cancel 0", "end"])
+    # https_request: every rung of https.c's and http_request2's ladders (strdup, cookie, header, everything inside
+    # network_connect: good address, no address at all, addresses that fail at once), each made again after a failure,
+    # cancelled (http_request_cancel frees the host name) or left to `end`
+    out.append(["hqs_start 0 g 3 9", "hqs_start 0 g 3 9", "hq_cancel 0", "hqs_start 1 - 0 0", "hqs_start 1 - 0 0",
+                "hqs_start 2 bg 17 64", "hqs_start 2 bg 17 64", "hqs_start 3 b 1 1", "hqs_start 3 b 1 1", "hq_start 4 g 5",
+                "hq_cancel 1", "hqs_start 1 g 200 255", "hq_cancel 2", "end"])
     # more cookies than the pools of network_read.c / network_write.c cache (16): the 17th cancel takes mpool_free's
     # slow path, where a refused request is harmless
     many = ["n%s_start %d %d" % (d, i, i) for d in "rw" for i in range(18)]
@@ -293,9 +318,19 @@ def ks_for(n):
     return list(range(1, 25)) + list(range(25, n + 1, 3))
 
 
-def sweep(ctx, exe, bases, tag):
+def sweep(ctx, exe, bases, tag, fresh=False):
     """-> sweep cases (each base without fault, then failat k / failfrom k for the k's of ks_for(N))."""
-    outs, crashes = vlib.run_stream([exe], bases, ctx.tmp, tag + "-count", env=dict(vlib.ASAN_ENV, H_UPPER_TMP=ctx.tmp))
+    env = dict(vlib.ASAN_ENV, H_UPPER_TMP=ctx.tmp)
+    if fresh:
+        # black-box mode of a harness whose library state survives a case: one process per base
+        outs, crashes = {}, {}
+        for i, base in enumerate(bases):
+            o, c = vlib.run_stream([exe], [base], ctx.tmp, "%s-count%d" % (tag, i), env=env)
+            outs[i] = o.get(0, [])
+            if 0 in c:
+                crashes[i] = c[0]
+    else:
+        outs, crashes = vlib.run_stream([exe], bases, ctx.tmp, tag + "-count", env=env)
     cases = []
     stats = {"bases": len(bases), "allocations_in_bases": 0}
     for i, base in enumerate(bases):
@@ -339,18 +374,20 @@ def classify(case, out):
 
 
 def make_components(ctx):
-    common = dict(extra=NOBUILTIN, classify=classify)
+    common = dict(classify=classify)
+    up_extra = NOBUILTIN + ["-fno-builtin-strdup"]
     cont = vlib.Component(
         "containers", "h_ds.c", [], ["ds"], None, nontrivial=lambda c: c[0].startswith("fail"),
         rule="containers: base sequences over elastic array / queue / seqptrmap / pool (C12's generators without their own "
-             "schedules, 6..90 ops) x {no fault, failat k, failfrom k : k = 1..N allocations of the base}; "
+             "schedules, 6..90 ops; pools of cache size 1, 2, 3, 4 each driven across its cache size) x {no fault, failat k, "
+             "failfrom k : k = 1..N allocations of the base}; "
              "non-trivial = a fault is scheduled; distinct by hash of the op list",
-        monitor_args=["dsmon"], ldflags=[WRAP], **common)
+        monitor_args=["dsmon"], extra=NOBUILTIN, ldflags=[WRAP], bb_ok=True, bb_srcs=c12.BB_SRCS, bb_fresh=True, **common)
     ev = vlib.Component(
         "events", "h_allocfail.c", EV_SRCS, ["af"], None, nontrivial=lambda c: c[0].startswith("fail"),
         rule="events: base sequences over ptrheap init/add/getmin/deletemin and events_immediate/timer/network register/cancel, "
              "clock steps and events_run (poll reports nothing ready, harness clock) x {no fault, failat k, failfrom k : every k}",
-        monitor_args=["afmon"], ldflags=[WRAP + ",--wrap=poll"], **common)
+        monitor_args=["afmon"], extra=NOBUILTIN, ldflags=[WRAP + ",--wrap=poll"], bb_ok=True, bb_srcs=EV_BB_SRCS, bb_fresh=True, **common)
     up = vlib.Component(
         "upper", "h_af_upper.c", UP_SRCS, ["upecho"], None, nontrivial=lambda c: c[0].startswith("fail"),
         rule="upper (OBSERVED BY FAULT ENUMERATION, NOT PROVED - the completion paths have no Lean failure model; the start / "
@@ -360,16 +397,17 @@ def make_components(ctx):
              "over real socketpairs (transfers up to 1 MB, i.e. several partial sends/receives with re-registration; reader waits of "
              "growing size with the unconsumed bytes checked after a failed wait) "
              "x {no fault, failat k, failfrom k : every k}; judged by the L1 rules of pmodel upmon only",
-        monitor_args=["upmon"], ldflags=[WRAP + ",--wrap=poll,--wrap=time"], ignore_l2=True, cpu=[],
-        env={"H_UPPER_TMP": ctx.tmp}, **common)
+        monitor_args=["upmon"], extra=up_extra, ldflags=[UP_WRAP] + UP_LIBS, ignore_l2=True, cpu=[],
+        env={"H_UPPER_TMP": ctx.tmp}, bb_ok=True, bb_srcs=UP_BB_SRCS, bb_fresh=True, **common)
     ust = vlib.Component(
         "upstart", "h_af_upper.c", UP_SRCS, ["upmodel"], None, nontrivial=lambda c: c[0].startswith("fail"),
         rule="upstart: start / registration / teardown calls of network_read, network_write, network_accept, "
-             "network_connect(_timeo), netbuf reader and writer, http_request, one call per op without an event-loop pass "
+             "network_connect(_timeo), netbuf reader and writer, http_request, https_request, one call per op without an event-loop pass "
              "(fixed descriptors, harness-side listener) x {no fault, failat k, failfrom k : every k}; lock-step with "
              "Model/AllocFail.lean: live library blocks, request sizes in order (hence the number of consultations), "
              "which descriptors have a reader/writer registered, number of immediate events and timers, pool fill",
-        monitor_args=["upmon"], ldflags=[WRAP + ",--wrap=poll,--wrap=time"], cpu=[], env={"H_UPPER_TMP": ctx.tmp}, **common)
+        monitor_args=["upmon"], extra=up_extra, ldflags=[UP_WRAP] + UP_LIBS, cpu=[], env={"H_UPPER_TMP": ctx.tmp},
+        bb_ok=True, bb_srcs=UP_BB_SRCS, bb_fresh=True, **common)
     return [(cont, bases_containers), (ev, bases_events), (up, bases_upper), (ust, bases_upstart)]
 
 
@@ -388,12 +426,13 @@ def run_components(ctx, names=None):
         if names is not None and comp.name not in names:
             continue
         ctx.rules.append("%s: %s" % (comp.name, comp.rule))
-        exe, err = vlib.build_harness(ctx, comp.name, comp.harness, comp.srcs, cpu=comp.cpu, extra=comp.extra, ldflags=comp.ldflags)
+        exe, err = vlib.build_component(ctx, comp)      # white-box, or black-box where the component allows it (bb_ok)
         if exe is None:
             vlib.process_failures(ctx, comp, [{"kind": "BUILD", "case": [], "index": -1, "detail": {"stderr": err}, "crash": None}])
             continue
         bases = vlib.load_corpus("C14", comp.name) + bases_fn(ctx.rng.fork(comp.name), ctx.tier)
-        cases, stats = sweep(ctx, exe, bases, comp.name)
+        bases = vlib.bb_filter(ctx, comp, bases)
+        cases, stats = sweep(ctx, exe, bases, comp.name, fresh=getattr(comp, "fresh_process", False))
         ctx.cov["components"].setdefault(comp.name, {}).update(stats)
         comp.gen = (lambda cs: (lambda rng, tier, mult: cs))(cases)
         fails = vlib.run_cases(ctx, comp, exe, cases)
